@@ -21,7 +21,7 @@ SOURCES = ['gen', 'agen', 'rx4', 'rx4bp', 'rx3', 'rx3bp']
 
 
 def plan(tier, seed):
-    return [('credit', 1500 if tier == 'quick' else 50000)]
+    return [('credit', 6000 if tier == 'quick' else 80000)]
 
 
 def credit_monitor(world):
